@@ -155,6 +155,11 @@ impl CongestionController for Cubic {
             self.mss = mss;
         }
     }
+
+    #[cfg(feature = "verif")]
+    fn verif_fp(&self, now: Instant, out: &mut Vec<u64>) {
+        out.extend_from_slice(&self.verif_state(now));
+    }
 }
 
 // K is the number of seconds required to get back to w_max.
@@ -246,5 +251,33 @@ mod tests {
         }
 
         trace!(?cubic, "cubic after 50 acked packets");
+    }
+}
+
+#[cfg(feature = "verif")]
+impl Cubic {
+    /// Verification hook: exact internal state. Destructures exhaustively on purpose: adding a
+    /// field breaks this until the field is classified.
+    pub fn verif_state(&self, now: Instant) -> [u64; 8] {
+        let Cubic {
+            cwnd,
+            ssthresh,
+            k,
+            w_max,
+            w_max_last,
+            mss,
+            last_congestion_event,
+            rwnd,
+        } = *self;
+        [
+            cwnd.to_bits(),
+            ssthresh.to_bits(),
+            k.to_bits(),
+            w_max.to_bits(),
+            w_max_last.to_bits(),
+            mss as u64,
+            crate::verif::rel_instant(now, last_congestion_event),
+            rwnd.to_bits(),
+        ]
     }
 }
